@@ -46,6 +46,7 @@ def showErr : Err → String
   | .noModule => "noModule" | .undefinedVariable => "undefinedVariable"
   | .modifiedBuiltin => "modifiedBuiltin" | .configBuiltin => "configBuiltin"
   | .cantFind => "cantFind" | .undefinedFunction => "undefinedFunction"
+  | .unusedConfig => "unusedConfig"
 
 def handleC05 (_quirks : List String) (op : String) (args : List String) : String :=
   match op, args with
